@@ -149,6 +149,12 @@ func c08SkewCase(c *Ctx) *Result {
 		}
 		res.Obs["handshakes"]++
 		res.Obs["class_"+class]++
+		if ts2 := time.Now().Unix(); !isVirtual && (ts2/60 != ts/60 || refcodec.Slot(ts2) != refcodec.Slot(ts)) {
+			// real time went on while the probe was under way and crossed a minute tick or a slot change:
+			// the server may have judged the probe at another instant than the one it was built for
+			res.Obs["probes_skipped_clock_moved_on"]++
+			continue
+		}
 		switch {
 		case class == "accept" && (!accepted || !replyOK):
 			sig = "handshake-failed-within-60s-skew"
@@ -234,6 +240,10 @@ func c08ClientCase(c *Ctx) *Result {
 			}
 		}
 		if len(first) < refcodec.NonceLen+refcodec.EncMetaLen {
+			continue
+		}
+		if x2 := time.Now().Unix(); !isVirtual && (x2/60 != x/60 || refcodec.Slot(x2) != refcodec.Slot(x)) {
+			res.Obs["probes_skipped_clock_moved_on"]++
 			continue
 		}
 		for _, d := range []int64{-60, -59, -1, 0, 1, 59, 60} {
